@@ -139,7 +139,7 @@ deriving Repr
 /-- `Pp::run_internal`: the machine, then the end-of-file checks. The sink (`CtxOut`) is applied
     to `out` by the caller. `readOk = false` models a read error (invalid UTF-8) after `lines`. -/
 def ppPass (Wd : World W) (mode : Mode) (le : Str) (firstPass trailing : Bool) (w : W)
-    (lines : List Str) (readOk : Bool := true) : PassResult W :=
+    (lines : List Str) (readOk : Bool) : PassResult W :=
   let s0 : PpState W := ⟨TagState.empty, if firstPass then .firstExec else .exec, w⟩
   if !readOk then .err else
   match machine (txtppSem Wd mode le) trailing s0 lines with
